@@ -1,6 +1,18 @@
 package webhook
 
 import (
+	"context"
+	"encoding/json"
+	"io"
+	"log/slog"
+	"net/http"
+	"strings"
+	"time"
+
+	"github.com/prometheus/common/promslog"
+
+	"github.com/prometheus/alertmanager/notify"
+	"github.com/prometheus/alertmanager/template"
 	"github.com/prometheus/alertmanager/types"
 )
 
@@ -31,5 +43,70 @@ func VerifC20_WebhookMaxAlerts() {
 	default:
 		vfAssert("fits-untouched", dropped == 0)
 		vfReach("fits")
+	}
+}
+
+// engine-only stubs: template data, URL templating, JSON encoding and the HTTP POST are
+// outside the engine; the POST is scripted (answers after a while, or never)
+func hTemplateData20(ctx context.Context, t *template.Template, as []*types.Alert, l *slog.Logger) *template.Data {
+	return &template.Data{}
+}
+func hTmplText20(t *template.Template, d *template.Data, err *error) func(string) string {
+	return func(s string) string { return s }
+}
+func hEncode20(e *json.Encoder, v any) error { return nil }
+
+var hPostTakes20 time.Duration
+var hPostStatus20 int
+
+func hPostJSON20(ctx context.Context, c *http.Client, url string, body io.Reader) (*http.Response, error) {
+	select {
+	case <-time.After(hPostTakes20):
+		return &http.Response{StatusCode: hPostStatus20, Body: io.NopCloser(strings.NewReader(""))}, nil
+	case <-ctx.Done():
+		return nil, ctx.Err()
+	}
+}
+
+// VerifC20_WebhookTransportErrors: the webhook notifier's answer to "may this be
+// retried?". With an optional per-attempt timeout (shorter than the flush deadline), a
+// POST that answers after an arbitrary while with 200, 500 or 400, or never: a 2xx is a
+// success; a 5xx and every transport failure (the per-attempt timeout included) are
+// recoverable, so that the retry stage tries again until the flush deadline; a 4xx is
+// not.
+//
+//vf:bounds unwind=12 decisions=200 goroutines=4
+//vf:nonative template execution, JSON and HTTP are stubbed (engine-only harness)
+//vf:stub github.com/prometheus/alertmanager/notify.GetTemplateData=hTemplateData20
+//vf:stub github.com/prometheus/alertmanager/notify.TmplText=hTmplText20
+//vf:stub (*encoding/json.Encoder).Encode=hEncode20
+//vf:stub github.com/prometheus/alertmanager/notify.PostJSON=hPostJSON20
+//vf:expect reach=attempt-timed-out reach=answered
+func VerifC20_WebhookTransportErrors() {
+	conf := &WebhookConfig{URL: "http://example/hook"}
+	if vfBool("hasAttemptTimeout") {
+		conf.Timeout = 10 * time.Second
+	}
+	n := &Notifier{conf: conf, logger: promslog.NewNopLogger(), retrier: &notify.Retrier{}}
+	hPostTakes20 = vfSeconds("postTakes", 0, 30)
+	hPostStatus20 = []int{200, 500, 400}[vfChoice("status", 3)]
+	vfAssume(hPostTakes20 != 10*time.Second)
+	ctx, cancel := context.WithTimeout(context.Background(), 5*time.Minute) // the flush deadline
+	defer cancel()
+	ctx = notify.WithGroupKey(ctx, "gk")
+	retry, err := n.Notify(ctx, &types.Alert{})
+	timedOut := conf.Timeout > 0 && hPostTakes20 > conf.Timeout
+	switch {
+	case timedOut:
+		vfAssert("attempt-timeout-is-an-error", err != nil)
+		vfAssert("attempt-timeout-is-recoverable", retry)
+		vfReach("attempt-timed-out")
+	case hPostStatus20 == 200:
+		vfAssert("2xx-is-success", err == nil && !retry)
+		vfReach("answered")
+	case hPostStatus20 == 500:
+		vfAssert("5xx-is-recoverable", err != nil && retry)
+	default:
+		vfAssert("4xx-is-not-recoverable", err != nil && !retry)
 	}
 }
